@@ -142,7 +142,7 @@ def obligations(tier):
     add("inquiry/standard", "h_inquiry", what="standard")
     for page in (0xB2, 0xB3, 0x86):
         add("inquiry/vpd-%02x" % page, "h_inquiry", what="fixed", arg=page)
-    for n in (0, 1, 8):
+    for n in (0, 1, 8, 300):
         add("inquiry/vpd-80/n=%d" % n, "h_inquiry", what="serial", arg=n)
     for k in R.DESIGNATOR_KINDS:
         add("inquiry/vpd-83/%s" % k, "h_inquiry", what="devid", arg=[k])
